@@ -57,6 +57,18 @@ int vnet_pick_port(const char *const *ips, int n)
     return -1;
 }
 
+int vnet_guard(const char *ip, int port)
+{
+    struct sockaddr_storage ss; socklen_t l = mk_sa(ip, port, &ss);
+    int fd = socket(ss.ss_family, SOCK_STREAM, 0);
+    if (fd < 0) return -1;
+    int one = 1;
+    if (ss.ss_family == AF_INET6) setsockopt(fd, IPPROTO_IPV6, IPV6_V6ONLY, &one, sizeof one);
+    if (bind(fd, (struct sockaddr *)&ss, l) < 0) { close(fd); return -1; }      /* no SO_REUSEADDR: nobody else can bind here while we hold it */
+    vs_mark_harness_fd(fd);
+    return fd;
+}
+
 int vnet_listen(const char *ip, int port, int backlog)
 {
     int fd = try_bind(ip, port, NULL);
